@@ -475,6 +475,7 @@ theorem bagSectionInfo_eq (conv : Conv) (s : Schema) (b : Bag) (ty : Str) (name 
           else
             match s.gettype ty with
             | some (.concrete t) => (mkBag conv t l) >>= fun child => pure ({ b with sectitems := r }, some child)
+            | none => throw (Fail.cfg { kind := .schema, tag := "unknown type name" })
             | _ => throw (Fail.internal "AttributeError") := rfl
 
 def bsiInv (acc : List OptItem × List OptItem) : Prop :=
@@ -512,7 +513,7 @@ theorem bsiStep_ok (ty : Str) (name : Option Str) (acc : List OptItem × List Op
         · exact ⟨fun e h => (by cases h), fun b' h => (by cases h; exact hR)⟩
 
 theorem bagSectionInfo_ok (conv : Conv) (s : Schema) (b : Bag) (ty : Str) (name : Option Str) (hb : BagOK b)
-    (hty : ∃ t, s.gettype ty = some (.concrete t)) :
+    (hty : s.gettype ty = none ∨ ∃ t, s.gettype ty = some (.concrete t)) :
     (∀ e, bagSectionInfo conv s b ty name ≠ .error (.internal e)) ∧
     (∀ b' cb, bagSectionInfo conv s b ty name = .ok (b', cb) → BagOK b' ∧ ∀ c, cb = some c → BagOK c) := by
   rw [bagSectionInfo_eq]
@@ -530,7 +531,9 @@ theorem bagSectionInfo_ok (conv : Conv) (s : Schema) (b : Bag) (ty : Str) (name 
     · refine ⟨fun e h => (by cases h), fun b' cb h => ?_⟩
       cases h
       exact ⟨hb, fun c hc => (by cases hc)⟩
-    · obtain ⟨t, ht⟩ := hty
+    · rcases hty with ht | ⟨t, ht⟩
+      · rw [ht]
+        exact ⟨fun e h => (by cases h), fun b' cb h => (by cases h)⟩
       rw [ht]
       simp only
       obtain ⟨G1, G2⟩ := mkBag_ok conv t l hinv.1
